@@ -19,13 +19,14 @@ shape(SOPTS, fields=dict(flow=OPT(OBJ(f"{FL}:ManualFrameFlow")), frame_size=INT,
                          lookup_preset=OBJ(PRESET)))
 _stream_fields = dict(encoder=OBJ(GENC), options=OBJ(SOPTS), flow=OBJ(f"{FL}:BoundedFrameFlow"),
                       repeated_terms=LISTOF(OPT(ADTS("gterm")), 4), enrolled=BOOL, stream_types=OBJ(STYPES))
+_stream_ghost = dict(g_ns=INT)      # ghost: number of namespace declarations that went through this stream (C14)
 PHYS_OF = {"TripleStream": 1, "QuadStream": 2, "GraphStream": 3}
 DEFAULT_FLOW = {"TripleStream": "FlatTriplesFrameFlow", "QuadStream": "FlatQuadsFrameFlow", "GraphStream": "FlatQuadsFrameFlow"}
 CLASS_LOGICAL = {"ManualFrameFlow": 0, "BoundedFrameFlow": 0, "FlatTriplesFrameFlow": 1, "FlatQuadsFrameFlow": 2,
                  "GraphsFrameFlow": 3, "DatasetsFrameFlow": 4}
 DISPATCH = {1: "FlatTriplesFrameFlow", 2: "FlatQuadsFrameFlow", 3: "GraphsFrameFlow", 4: "DatasetsFrameFlow"}
 for _c in ("Stream", "TripleStream", "QuadStream", "GraphStream"):
-    shape(f"{SS}:{_c}", fields=_stream_fields)
+    shape(f"{SS}:{_c}", fields=_stream_fields, ghost=_stream_ghost)
 
 
 def expected_flow_class(stream_cls: str, lt: Any, delimited: Any) -> dict[str, Any]:
@@ -96,6 +97,7 @@ def _mk_statement_method(stream_cls: str, method: str, arity: int) -> Any:
     class C:
         params = {"self": OBJ(f"{SS}:{stream_cls}"), "terms": TUP(*[ADTS("gterm")] * arity)}
         result = OPT(MSG("RdfStreamFrame"))
+        linear = True
         modifies = ["self.encoder.names", "self.encoder.prefixes", "self.encoder.datatypes", "self.repeated_terms", "self.flow.data"]
         # one verification per kind of flow the stream may hold: bounded (emits on size) and the others (never do)
         variants = [{"self": OBJ(f"{SS}:{stream_cls}")}, {"self": OBJ(f"{SS}:{stream_cls}@manual")},
@@ -114,16 +116,24 @@ def _mk_statement_method(stream_cls: str, method: str, arity: int) -> Any:
                 x = z3.If(x != 0, x, gx)
             return {"NotImplementedError": x == 1, "JellyConformanceError": x == 2}
 
-        def on_raise(e):
+        def lists_on_raise(e):
             # C20: whatever had been buffered before the failure is still there, untouched
-            return {"buffered-rows-untouched": same_rows(list(e.self.flow.data.items), list(e.old.self.flow.data.items)),
-                    "tables-still-well-formed": wf_te(e.self.encoder)}
+            return [dict(label="rejected", when=True, set={"self.flow.data": list(e.old.self.flow.data.items)})]
+
+        def on_raise(e):
+            return {"tables-still-well-formed": wf_te(e.self.encoder)}
+
+        def lists(e):
+            # C06/C01: rows buffered before are neither lost nor reordered: they lead the emitted frame, or stay buffered,
+            # followed by this statement's rows
+            old_items = list(e.old.self.flow.data.items)
+            emitted = Not(is_none(e.result))
+            return [dict(label="emitted", when=emitted, set={"self.flow.data": [], "result.rows": old_items + [...]}),
+                    dict(label="kept", when=Not(emitted), set={"self.flow.data": old_items + [...]})]
 
         def ensures(e):
-            F, O = e.self.flow, e.old.self.flow
-            old_items = list(O.data.items)
+            F = e.self.flow
             emitted = Not(is_none(e.result))
-            fr = opt_val(e.result)
             bounded = F.cls.name in BOUNDED
             out = {"wf": wf_te(e.self.encoder)}
             if bounded:
@@ -134,15 +144,11 @@ def _mk_statement_method(stream_cls: str, method: str, arity: int) -> Any:
             else:
                 # C07/C06: flows that are not size-bounded never cut a frame in the middle of a graph/dataset
                 out["no-size-based-frame"] = Not(emitted)
-            # C06/C01: rows buffered before are neither lost nor reordered: they lead the emitted frame, or stay buffered
-            if fr is not None:
-                out["buffered-rows-lead-the-frame"] = Implies(emitted, is_prefix(old_items, list(fr.rows.items)))
-            out["buffered-rows-kept"] = Implies(Not(emitted), is_prefix(old_items, list(F.data.items)))
             return out
     return C
 
 
 for _cls, _m, _k in (("TripleStream", "triple", 3), ("QuadStream", "quad", 4)):
     for _suffix, _flowcls in (("@manual", "ManualFrameFlow"), ("@graphs", "GraphsFrameFlow")):
-        shape(f"{SS}:{_cls}{_suffix}", fields={**_stream_fields, "flow": OBJ(f"{FL}:{_flowcls}")})
+        shape(f"{SS}:{_cls}{_suffix}", fields={**_stream_fields, "flow": OBJ(f"{FL}:{_flowcls}")}, ghost=_stream_ghost)
     contract(f"{SS}:{_cls}.{_m}", serves=["C11", "C06", "C07", "C01", "C20"])(_mk_statement_method(_cls, _m, _k))
